@@ -1,5 +1,31 @@
 (* Props/C07.v — the audited surface for property C07 (the Fortran back-end computes what the Python back-end computes).
-   Statements only; every proof is `exact <lemma>`; Print Assumptions under each. *)
+   Statements only; every proof is `exact <lemma>`; Print Assumptions under each.
+
+   WHAT IS PROVED, clause by clause of the property text
+     "variable numbering matches"            C07_numbering_matches_names, C07_term_rewritten, C07_term_text_reads_back
+     text of build_fortran_definition        C07_rewrite_* , C07_index_text_rewritten, C07_block_is_comment_then_code,
+                                             C07_continuation_denotes_glue, C07_wrap_breaks_between_tokens (+ the instance C07_wrap_long_run_parses)
+     "compiles"                              C07_benign_compiles: KINDS only (no operator meets operand kinds gfortran rejects).  That the text
+                                             is well-formed Fortran is tied per case by K (FParse parses every generated statement to the tree
+                                             that is evaluated; gfortran compiles every generated module) — not proved
+     same values (evaluate / one pass)       C07_benign_expressions_agree, C07_pass_agree, C07_evaluate_engines_agree, C07_evaluate_out_of_span;
+                                             at binary64 without any hypothesis on the arithmetic: C07_F_pass_agree
+     same statuses / iterations / returns /  C07_wrapper_refines_python_solve_t(_run), C07_solve_t_engines_agree, C07_wrapper_refines_python_solve,
+     exception types, solve_t and solve      .._all_statuses, C07_solve_start_end_refines, C07_solve_engines_agree, C07_both_reject_*,
+                                             C07_max_iter_zero_agree; at binary64: C07_F_solve_t_engines_agree, C07_F_solve_engines_agree + instances
+     "negative positions and offsets"        the solve_t theorems quantify over t in either spelling (py_pos) and over in-span offsets;
+                                             out-of-span offsets: C07_both_reject_offset_out_of_span
+     "constants denote the same numbers"     inside the class `benign` (C07_benign_expressions_agree, C07_F_common_literal_uses_agree); refuted outside
+                                             (C07_literals_denote_same_numbers_refuted, C07_real4_literal_refuted, C07_compiles_refuted)
+   WHAT IS ONLY K / ORACLE
+     * every Coq agreement is BIT equality; "to floating-point rounding" is not formalised: `**` with a literal operand (X**2: repeated
+       multiplication vs pow()) agrees to rounding only and is checked by the oracle's tolerance class `powi` (single-pass runs);
+     * that gfortran reads the generated text as FParse does (operator grouping, literal kinds, -O2 code generation, x**n expansion,
+       MAX/MIN) and that libm's exp/log/pow are the shared oracle: observed bit for bit by the float part of K;
+     * the theorems C07_wrapper_codes_are_template_codes / C07_literal_free_is_benign unfold definitions over regenerated constants /
+       a syntactic inclusion: they tie the model to the source, they are not counted as covering a clause.
+   KEPT FINDINGS (refuted below): literal kinds (5 signatures), _evaluate called directly at an infeasible period (the generated Python
+   has no guard), solve() with an out-of-span offset under errors <> 'raise' (later periods solved), solve() on an empty span. *)
 From Coq Require Import Ascii String ZArith List Bool.
 Import ListNotations.
 From Coq Require Import PrimFloat.
@@ -390,12 +416,13 @@ Section C07.
     (forall idx v, shape n m v -> shape n m (evf idx v)) ->
     w_ec (errors o) = Some ec -> w_fc fl = Some fc ->
     fail_raise o = match fl with FRaise => true | _ => false end ->
-    shape n m (vals_of s) -> length (status s) = n ->
+    (0 < n)%nat -> shape n m (vals_of s) -> length (status s) = n ->
     (forall ps, sel_positions d n start stop = inl ps -> solve_okG num sub absf ltb isfin zero evf ev fm d o n ec ps (vals_of s)) ->
     agree num (w_solve_se num sub absf ltb isfin zero evf fm d o fl start stop s)
               (py_solve_se num sub absf ltb isfin zero ev (no_hook num) (no_hook num) d o start stop s).
   Proof. intros H1 H2 H3 H4 H5 H6 H7 H8 H9 H10 H11.
          exact (w_solve_se_refines num sub absf ltb isfin zero evf ev fm d o n m ec fc fl H1 H2 H3 H4 H5 H6 H7 H8 H9 H10 H11 start stop s). Qed.
+  (* (the span must have a period: see C07_empty_span_refuted) *)
 End C07.
 Print Assumptions C07_literal_free_expressions_agree.
 Print Assumptions C07_benign_expressions_agree.
@@ -546,6 +573,14 @@ Theorem C07_max_iter_zero_instance :
   snd (F_solve_t no_or prog1 fmod1 desc1 (opts1 0 0 true ERaise) 1 state1) = XB (Raise NonConvergenceError).
 Proof. exact max_iter_zero_instance. Qed.
 Print Assumptions C07_max_iter_zero_instance.
+
+(* solve() of a model WITHOUT periods: SolutionError from the Python engine, IndexError from the Fortran engine (kept finding; the
+   guard `0 < n` of C07_solve_start_end_refines excludes exactly this) *)
+Theorem C07_empty_span_refuted :
+  snd (P_solve_se no_or prog1 desc1 (opts1 100 0 true ERaise) None None state_empty) = XL (Raise (SolutionError None)) /\
+  snd (F_solve_se no_or prog1 fmod1 desc1 (opts1 100 0 true ERaise) FRaise None None state_empty) = XL (Raise IndexError).
+Proof. exact empty_span_witness. Qed.
+Print Assumptions C07_empty_span_refuted.
 
 (* solve with an offset that leaves the span at the first period, errors <> 'raise': same exception, different values *)
 Theorem C07_solve_offset_values_refuted :
